@@ -227,4 +227,12 @@ contract('Decode.Decoder.decode',
          loops={0: dict(invariant=[(systems_inv, ['C18'])], index='si', modifies=LIFECYCLE_GHOSTS),
                 1: dict(invariant=[(groups_inv, ['C18'])], index='gi', modifies=LIFECYCLE_GHOSTS),
                 2: dict(invariant=[(agents_inv, ['C18'])], index='i', modifies=LIFECYCLE_GHOSTS)},
+         # the site contracts above are keyed by source-order call ordinal: they apply to this call skeleton only. A body
+         # with another skeleton (calls added, removed, moved into a helper) is outside what this contract can read:
+         # the function is then reported as unsupported (native layer decides / DEGRADED), never mis-read.
+         skeleton=['open_file', 'Exception', 'str_to_func', 'get_module_name', 'func', 'decode', 'str_to_class',
+                   'get_module_name', 'str_to_func', 'get_module_name', 'func', 'add_system', 'decode', 'str_to_class',
+                   'get_module_name', 'str_to_func', 'get_module_name', 'func', 'str_to_func', 'get_module_name', 'func',
+                   'range', 'add_agent', 'decode', 'str_to_class', 'get_module_name', 'str_to_func', 'get_module_name',
+                   'func', 'str_to_func', 'get_module_name', 'func'],
          native=False, props=['C18'])
